@@ -94,6 +94,18 @@ type Arg struct {
 	Attrs []ParamAttribute
 }
 
+// argOperand returns the operand slot of the i-th argument of a call, invoke or
+// callbr. An argument with parameter attributes is stored as an *Arg wrapping
+// the value used; its operand slot is the slot of the wrapped value, so that
+// the value is found (and replaced, keeping the attributes) through the
+// operands of its user.
+func argOperand(args []value.Value, i int) *value.Value {
+	if arg, ok := args[i].(*Arg); ok {
+		return &arg.Value
+	}
+	return &args[i]
+}
+
 // NewArg returns a new function argument based on the given value and parameter
 // attributes.
 func NewArg(x value.Value, attrs ...ParamAttribute) *Arg {
